@@ -16,6 +16,9 @@ struct Cnt2 {
   Cnt2& operator=(const Cnt2&) = default;
 };
 extern int g_sink;
+struct Cnt;
+inline int constness(Cnt&) { return 0; }         // what a clause sees when it names a T& parameter: a non-const lvalue
+inline int constness(const Cnt&) { return 1; }
 struct Cnt {
   int v;
   static int copies, moves;
